@@ -59,6 +59,31 @@ fn targeted_scenarios(n: usize, q: u64, costs: &[u64]) -> Vec<RosSched> {
     v
 }
 
+/// two callbacks missing consecutive polling points: callback i arrives one tick after the
+/// callbacks released at t0 were polled (so it is held back until the next polling point), and
+/// callback j one tick after that next polling point (on a dedicated processor: when the first
+/// polling window's callbacks have run), so that instances carried across a polling point and
+/// fresh instances of i meet ahead of j
+fn pair_scenarios(n: usize, q: u64, costs: &[u64]) -> Vec<RosSched> {
+    let mut v = vec![];
+    if n < 3 {
+        return v;
+    }
+    for i in 0..n {
+        for j in 0..n {
+            if i == j {
+                continue;
+            }
+            let first_window: u64 = (0..n).filter(|k| *k != i && *k != j).map(|k| costs[k]).sum();
+            let mut phases = vec![0u64; n];
+            phases[i] = 1;
+            phases[j] = first_window + 1;
+            v.push(RosSched { t0: 0, choices: vec![vec![]; n], phases, exec_cut: vec![], placement: Placement::early_then_late(q) });
+        }
+    }
+    v
+}
+
 fn scalar(c: &CostSpec) -> u64 {
     match c {
         CostSpec::Scalar { c } => *c,
@@ -69,6 +94,10 @@ fn scalar(c: &CostSpec) -> u64 {
 type R = RBF<Ab, Scalar>;
 fn rbf(a: &ArrSpec, c: u64) -> R {
     RBF::new(a.build(), Scalar::new(s(c)))
+}
+type Rc04 = RBF<Ab, Cm>;
+fn rbf_c(a: &ArrSpec, c: &CostSpec) -> Rc04 {
+    RBF::new(a.build(), c.build())
 }
 
 // --- C04 ---------------------------------------------------------------------------
@@ -89,7 +118,27 @@ pub struct C04Case {
 }
 
 fn c04_strategy(tier: Tier) -> BoxedStrategy<C04Case> {
-    let g = ros_gen(tier);
+    c04_strategy_g(ros_gen(tier))
+}
+
+/// callbacks with wcet::Multiframe costs (non-increasing frames, so that the first n frames bound
+/// any n consecutive instances); chain-free workloads only
+fn c04_mf_strategy(tier: Tier) -> BoxedStrategy<C04Case> {
+    c04_strategy_g(RosGen { multiframe: true, ..ros_gen(tier) })
+        .prop_map(|mut c| {
+            c.chain = None;
+            c.scheds.truncate(6);
+            for cb in c.wl.cbs.iter_mut() {
+                if let CostSpec::Multiframe { costs } = &mut cb.cost {
+                    costs.sort_unstable_by(|a, b| b.cmp(a));
+                }
+            }
+            c
+        })
+        .boxed()
+}
+
+fn c04_strategy_g(g: RosGen) -> BoxedStrategy<C04Case> {
     let chain = prop_oneof![
         3 => Just(None),
         2 => (arr_strategy(ArrGen { never: false, ..g.arr }), proptest::collection::vec((1u64..=5, 0i32..8), 1..=4))
@@ -115,13 +164,26 @@ fn check_c04(c: &C04Case) -> CheckResult {
     let sup = c.wl.supply.build();
     // all callbacks: externally triggered ones, then the chain members
     let mut kinds: Vec<CbKind> = cbs.iter().map(|c| c.kind).collect();
-    let mut costs: Vec<u64> = cbs.iter().map(|c| scalar(&c.cost)).collect();
+    // scalar or multiframe cost models; `costs` holds each callback's largest single cost
+    for cb in cbs {
+        match &cb.cost {
+            CostSpec::Scalar { .. } => {}
+            CostSpec::Multiframe { costs } if !costs.is_empty() && costs.windows(2).all(|w| w[0] >= w[1]) && *costs.last().unwrap() >= 1 => {}
+            _ => {
+                out.label("cost-model-not-simulated(skipped)");
+                return Ok(out);
+            }
+        }
+    }
+    let mut cost_specs: Vec<CostSpec> = cbs.iter().map(|c| c.cost.clone()).collect();
+    let mut costs: Vec<u64> = cbs.iter().map(|c| c.cost.wcet()).collect();
     let mut prio_in: Vec<i32> = cbs.iter().map(|c| c.prio).collect();
     let mut next: Vec<Option<usize>> = vec![None; n0];
     if let Some(ch) = &c.chain {
         for (k, (cost, prio)) in ch.members.iter().enumerate() {
             kinds.push(CbKind::Polled);
             costs.push(*cost);
+            cost_specs.push(CostSpec::Scalar { c: *cost });
             prio_in.push(*prio);
             next.push(if k + 1 < ch.members.len() { Some(n0 + k + 1) } else { None });
         }
@@ -139,7 +201,7 @@ fn check_c04(c: &C04Case) -> CheckResult {
     let mut chain_bound: Option<u64> = None;
     let limit = d(c.limit);
     let r = guard(|| {
-        let rbfs: Vec<R> = (0..n0).map(|i| rbf(&cbs[i].arr, costs[i])).collect();
+        let rbfs: Vec<Rc04> = (0..n0).map(|i| rbf_c(&cbs[i].arr, &cost_specs[i])).collect();
         if let Some(ch) = &c.chain {
             let k = ch.members.len();
             let last = rbf(&ch.source, costs[n - 1]);
@@ -159,7 +221,7 @@ fn check_c04(c: &C04Case) -> CheckResult {
         } else {
             for i in 0..n0 {
                 let res = if kinds[i] == CbKind::Timer {
-                    let hp: Vec<R> = (0..n0).filter(|k| kinds[*k] == CbKind::Timer && prios[*k] < prios[i]).map(|k| rbfs[k].clone()).collect();
+                    let hp: Vec<Rc04> = (0..n0).filter(|k| kinds[*k] == CbKind::Timer && prios[*k] < prios[i]).map(|k| rbfs[k].clone()).collect();
                     let blk = (0..n0)
                         .filter(|k| *k != i && !(kinds[*k] == CbKind::Timer && prios[*k] < prios[i]))
                         .map(|k| costs[k])
@@ -168,7 +230,7 @@ fn check_c04(c: &C04Case) -> CheckResult {
                         .saturating_sub(1);
                     ros2::rta_timer(&sup, &rbfs[i], &demand::Aggregate::new(hp), s(blk), limit)
                 } else {
-                    let ot: Vec<&R> = (0..n0).filter(|k| *k != i).map(|k| &rbfs[k]).collect();
+                    let ot: Vec<&Rc04> = (0..n0).filter(|k| *k != i).map(|k| &rbfs[k]).collect();
                     ros2::rta_polling_point_callback(&sup, &rbfs[i], &demand::Aggregate::new(ot), limit)
                 };
                 bounds[i] = Res::from(res).ok();
@@ -190,11 +252,11 @@ fn check_c04(c: &C04Case) -> CheckResult {
     let (q, _, _) = c.wl.supply.qdp().unwrap();
     let mut all = vec![ros_canonical(n, q)];
     all.extend(targeted_scenarios(n, q, &costs));
+    all.extend(pair_scenarios(n, q, &costs));
     all.extend(c.scheds.iter().cloned());
     let sources: Vec<Option<&ArrSpec>> = (0..n)
         .map(|i| if i < n0 { Some(&cbs[i].arr) } else if i == n0 { c.chain.as_ref().map(|c| &c.source) } else { None })
         .collect();
-    let cost_specs: Vec<CostSpec> = costs.iter().map(|c| CostSpec::Scalar { c: *c }).collect();
     let cost_refs: Vec<&CostSpec> = cost_specs.iter().collect();
     let mut waited = false;
     let mut attained = false;
@@ -259,6 +321,12 @@ fn check_c04(c: &C04Case) -> CheckResult {
     out.label_if(c.chain.is_some(), "chain");
     out.label_if(!c.wl.supply.is_dedicated(), "reservation");
     out.label_if(c.limit != LIMIT, "small-limit");
+    let varied = cbs.iter().any(|cb| matches!(&cb.cost, CostSpec::Multiframe { costs } if costs.iter().any(|x| *x != costs[0])));
+    out.label_if(varied, "varied-frame-costs");
+    if cbs.iter().any(|cb| !cb.cost.is_scalar()) {
+        // the multiframe sub-check counts only cases in which the frames really differ
+        out.nontrivial = out.nontrivial && varied;
+    }
     Ok(out)
 }
 
@@ -369,15 +437,16 @@ fn check_ev(c: &EvCase) -> CheckResult {
 pub fn def_c04() -> PropertyDef {
     PropertyDef {
         id: "C04",
-        rule: "generated: executor workloads of 1-4 externally triggered callbacks (timers / polled, unique priorities, scalar costs <= 6, arrival specs as C01 incl. jitter > period, bursts, Never) and optionally a processing chain of 1-4 polled callbacks triggered by one source; supply Dedicated / Periodic(Q,P) / Constrained(Q,D,P) with P <= 8; utilisation steered to 0.3-1.0 of the reservation's bandwidth; limit 3000 or small. Calls: rta_timer (interference = higher-priority timers, blocking = longest other callback - 1) and rta_polling_point_callback (interference = all other callbacks) for every callback of chain-free workloads, rta_processing_chain (last / prefix / full with the source curve, others = all externally triggered callbacks) otherwise; a separate sub-check runs rta_event_source against FIFO service of the streams inside the reservation. Per case: the canonical scenario (everything densest from t0, all WCET, budget early in the first period then late, timeline starting right after the early budget), 4 targeted scenarios per callback (that callback released 1 / longest / longest+1 ticks after everything else, or everything else one tick after it) plus 4-7 generated scenarios (release decisions, phases, execution-time cuts, budget placement per period, phase of the reservation). Oracle: executor + reservation simulator (ros.rs); no instance (chains: source arrival to completion of the last callback) may exceed Ok(R). Non-trivial: >= 2 callbacks or a non-dedicated supply, and some instance waited. Distinct by case JSON.".into(),
+        rule: "generated: executor workloads of 1-4 externally triggered callbacks (timers / polled, unique priorities, scalar costs <= 6, arrival specs as C01 incl. jitter > period, bursts, Never) and optionally a processing chain of 1-4 polled callbacks triggered by one source; supply Dedicated / Periodic(Q,P) / Constrained(Q,D,P) with P <= 8; utilisation steered to 0.3-1.0 of the reservation's bandwidth; limit 3000 or small. Calls: rta_timer (interference = higher-priority timers, blocking = longest other callback - 1) and rta_polling_point_callback (interference = all other callbacks) for every callback of chain-free workloads, rta_processing_chain (last / prefix / full with the source curve, others = all externally triggered callbacks) otherwise; a separate sub-check runs rta_event_source against FIFO service of the streams inside the reservation. Per case: the canonical scenario (everything densest from t0, all WCET, budget early in the first period then late, timeline starting right after the early budget), 4 targeted scenarios per callback (that callback released 1 / longest / longest+1 ticks after everything else, or everything else one tick after it), for >= 3 callbacks one scenario per ordered pair (i, j) in which i arrives one tick after t0 and j one tick after the first polling window (two callbacks missing consecutive polling points), plus 4-7 generated scenarios (release decisions, phases, execution-time cuts, budget placement per period, phase of the reservation). Sub-check multiframe-costs: chain-free workloads whose callbacks carry wcet::Multiframe costs (2-4 frames in non-increasing order, so that the first n frames bound any n consecutive instances; instance k costs at most frame k mod len); same calls and oracle; non-trivial there additionally requires two different frame costs. Oracle: executor + reservation simulator (ros.rs); no instance (chains: source arrival to completion of the last callback) may exceed Ok(R). Non-trivial: >= 2 callbacks or a non-dedicated supply, and some instance waited. Distinct by case JSON.".into(),
         assumptions: vec![
-            "executor model of ros.rs (timers first by priority; polled callbacks once per polling window from a ready set refreshed only when empty; non-preemptive; chain successors activated at completion); scalar execution-time bounds".into(),
+            "executor model of ros.rs (timers first by priority; polled callbacks once per polling window from a ready set refreshed only when empty; non-preemptive; chain successors activated at completion); scalar execution-time bounds (multiframe-costs sub-check: per-instance bounds taken cyclically from the frame vector)".into(),
             "a reservation delivers exactly its budget in every period, anywhere within the first D slots".into(),
             "individual callback bounds are checked on chain-free workloads only (a chain member's activation curve is not an input of those analyses)".into(),
         ],
         subchecks: vec![
             subcheck("executor", (1500, 40_000), c04_strategy, check_c04),
             subcheck("event-source", (1000, 30_000), ev_strategy, check_ev),
+            subcheck("multiframe-costs", (4000, 60_000), c04_mf_strategy, check_c04),
         ],
         extra: None,
     }
@@ -482,6 +551,7 @@ fn check_c05(c: &C05Case) -> CheckResult {
     let (q, _, _) = c.wl.supply.qdp().unwrap();
     let mut all = vec![ros_canonical(n, q)];
     all.extend(targeted_scenarios(n, q, &costs));
+    all.extend(pair_scenarios(n, q, &costs));
     all.extend(c.scheds.iter().cloned());
     let sources: Vec<Option<&ArrSpec>> = cbs.iter().map(|c| Some(&c.arr)).collect();
     let cost_refs: Vec<&CostSpec> = cbs.iter().map(|c| &c.cost).collect();
@@ -529,7 +599,7 @@ fn check_c05(c: &C05Case) -> CheckResult {
 pub fn def_c05() -> PropertyDef {
     PropertyDef {
         id: "C05",
-        rule: "generated: workloads of 1-4 callbacks mixing timers, Polled(prio) and PolledUnknownPrio (the declared kind is generated independently of the simulator's true priority order), scalar costs, arrival specs as C01, supply as C04, utilisation steered to 0.2-0.85 of the bandwidth; analysis rr or bw. The self-consistent bound vector is obtained as the property prescribes: start at the WCETs, re-run the singleton-subchain analysis for every callback with the current vector, repeat until nothing changes (divergent / Err vectors are counted and skipped). Per case the canonical scenario, 4 targeted scenarios per callback and 4-7 generated scenarios (as C04). Oracle: executor + reservation simulator; every instance of every callback must respond within its bound. Non-trivial: converged, >= 2 callbacks of which >= 1 polled, and some polled instance waited through >= 2 polling points. Distinct by case JSON.".into(),
+        rule: "generated: workloads of 1-4 callbacks mixing timers, Polled(prio) and PolledUnknownPrio (the declared kind is generated independently of the simulator's true priority order), scalar costs, arrival specs as C01, supply as C04, utilisation steered to 0.2-0.85 of the bandwidth; analysis rr or bw. The self-consistent bound vector is obtained as the property prescribes: start at the WCETs, re-run the singleton-subchain analysis for every callback with the current vector, repeat until nothing changes (divergent / Err vectors are counted and skipped). Per case the canonical scenario, 4 targeted scenarios per callback, the pair scenarios (two callbacks missing consecutive polling points: carried-in and fresh instances of one meet ahead of the other) and 4-7 generated scenarios (as C04). Oracle: executor + reservation simulator; every instance of every callback must respond within its bound. Non-trivial: converged, >= 2 callbacks of which >= 1 polled, and some polled instance waited through >= 2 polling points. Distinct by case JSON.".into(),
         assumptions: vec![
             "executor model of ros.rs; scalar execution-time bounds; all callbacks externally triggered (singleton subchains, as in the property)".into(),
             "a reservation delivers exactly its budget in every period, anywhere within the first D slots".into(),
